@@ -75,8 +75,7 @@ Proof.
     rewrite (c_ids _ _ _ (proj1 C)).
     destruct (id_lookup (s_ids a) i) as [ser|] eqn:El; [|split; [exact C|apply obs_list_refl]].
     destruct (proj2 Ka _ _ (id_lookup_In _ _ _ El)) as (j&Ej&_). rewrite Ej, (c_jobs _ _ _ (proj1 C) _ _ Ej).
-    rewrite (c_hub _ _ _ (proj1 C)).
-    destruct (j_done j && negb (done_pending ser (s_hub a))).
+    destruct (j_done j).
     + destruct (j_drop j && id_is (s_ids a) (j_id j) ser); cbn [fst snd]; (split; [|apply obs_list_refl]);
         [apply core_set_ids|]; exact C.
     + cbn [fst snd]. split; [|apply obs_list_refl]. rewrite ?(core_get _ _ _ c (proj1 C) Fc).
